@@ -15,7 +15,11 @@ func vfQuietLogger() logger.Logger {
 
 // C10.reset: NewExecutionGraphForRetry resets exactly R = U ∪ descendants(U), where
 // U = nodes recorded failed / canceled / running, and keeps every other node bit-for-bit.
-func vfHarnessC10Reset(n int) {
+func vfHarnessC10Reset(n int) { vfHarnessC10ResetOrder(n, false) }
+
+// permuted: the recorded steps are handed over in an arbitrary declaration order (the
+// builder does not sort steps; a dependant may be declared before its upstream step)
+func vfHarnessC10ResetOrder(n int, permuted bool) {
 	steps := vfBuildSteps(n)
 	rec := make([]NodeState, n)
 	nodes := make([]*Node, n)
@@ -34,7 +38,22 @@ func vfHarnessC10Reset(n int) {
 		}
 		nodes[i] = NewNode(steps[i], rec[i])
 	}
-	g, err := NewExecutionGraphForRetry(vfQuietLogger(), nodes...)
+	order := make([]int, n) // order[k] = index of the step declared k-th
+	for i := range order {
+		order[i] = i
+	}
+	if permuted {
+		// Fisher-Yates over choices: every permutation
+		for i := n - 1; i > 0; i-- {
+			j := vfChoice("perm", i+1)
+			order[i], order[j] = order[j], order[i]
+		}
+	}
+	declared := make([]*Node, n)
+	for k, i := range order {
+		declared[k] = nodes[i]
+	}
+	g, err := NewExecutionGraphForRetry(vfQuietLogger(), declared...)
 	vfAssume(err == nil)
 
 	// oracle: independent reachability over Step.Depends
@@ -53,7 +72,8 @@ func vfHarnessC10Reset(n int) {
 			}
 		}
 	}
-	for i, nd := range g.Nodes() {
+	for k, nd := range g.Nodes() {
+		i := order[k]
 		st := nd.State()
 		if inR[i] {
 			vfAssert(st.Status == NodeStatusNone, "C10.reset/unfinished-or-downstream-step-is-reset-to-not-started")
@@ -69,5 +89,7 @@ func vfHarnessC10Reset(n int) {
 	vfReach("end")
 }
 
-func VerifHarness_C10_reset3() { vfHarnessC10Reset(3) }
-func VerifHarness_C10_reset4() { vfHarnessC10Reset(4) }
+func VerifHarness_C10_reset3()     { vfHarnessC10Reset(3) }
+func VerifHarness_C10_reset4()     { vfHarnessC10Reset(4) }
+func VerifHarness_C10_resetperm3() { vfHarnessC10ResetOrder(3, true) }
+func VerifHarness_C10_resetperm4() { vfHarnessC10ResetOrder(4, true) }
